@@ -47,16 +47,27 @@ func TestE2E(t *testing.T) {
 	prof := profileByName(os.Getenv("VERIF_PROFILE"))
 	g := newG(seed, 0x9e3779b97f4a7c15)
 	var cases, impl []string
+	// the case being run is kept on disk, so that a crash of the process (a panic in a goroutine the
+	// transport started cannot be recovered) can be attributed to an input
+	current := filepath.Join(out, "current.case")
 	for _, c := range corpusCases() {
+		_ = os.WriteFile(current, []byte(c.Encode()), 0o644)
 		cases = append(cases, c.Encode())
 		impl = append(impl, runCase(t, c, runOpts{})...)
 	}
 	for i := 0; i < n; i++ {
-		c := g.genCase(prof, fmt.Sprintf("%s-%d-%d", prof.Name, seed, i))
+		var c *Case
+		if prof.Name == "repeat" {
+			c = g.genRepeatCase(prof, fmt.Sprintf("%s-%d-%d", prof.Name, seed, i))
+		} else {
+			c = g.genCase(prof, fmt.Sprintf("%s-%d-%d", prof.Name, seed, i))
+		}
 		canonCase(c)
+		_ = os.WriteFile(current, []byte(c.Encode()), 0o644)
 		cases = append(cases, c.Encode())
 		impl = append(impl, runCase(t, c, runOpts{})...)
 	}
+	_ = os.Remove(current)
 	if err := writeLines(filepath.Join(out, "cases.txt"), cases); err != nil {
 		t.Fatal(err)
 	}
